@@ -2,8 +2,12 @@ CONSTANT Dev = {}
 SPECIFICATION TraceSpec
 INVARIANT ReturnedOnceInOrder
 INVARIANT MatchLeScan
+INVARIANT StoppedIsFinal
+INVARIANT Partition
 INVARIANT Emit
 PROPERTY ValidityMonotone
 PROPERTY CountsMonotone
 PROPERTY NothingAfterStop
+PROPERTY AdvanceInert
+PROPERTY UnofferedInert
 CHECK_DEADLOCK FALSE
